@@ -6,6 +6,7 @@ import (
 	"fmt"
 	"os"
 	"runtime"
+	"strings"
 	"sync/atomic"
 	"testing"
 	"time"
@@ -99,6 +100,7 @@ type result struct {
 // runPair executes one pair and judges the growth between its last phases.
 func runPair(p Pair) result { //nolint:cyclop,gocognit
 	res := result{Pair: p}
+	idle := kit.Idle() // goroutines of the idle process: what the interceptor starts must be gone again after Close
 	base := measure()
 	res.Baseline = base.alloc
 	m := kit.NewMember(p.Member, interval)
@@ -365,6 +367,9 @@ func runPair(p Pair) result { //nolint:cyclop,gocognit
 	time.Sleep(2 * interval)
 	after := measure()
 	res.AfterStop = after.alloc
+	if left := kit.WaitGoroutines(idle, 2*time.Second); res.Verdict == "" && left > idle {
+		res.Verdict = fmt.Sprintf("%d goroutines started by the interceptor are still alive 2 s after Unbind/Close: what they reference is not collectable", left-idle)
+	}
 	if res.Verdict == "" && int64(after.alloc)-int64(base.alloc) > 256<<10 && int64(after.objects)-int64(base.objects) > 2000 { //nolint:gosec
 		res.Verdict = fmt.Sprintf("memory is not released after Unbind/Close: baseline %d bytes, after Close %d bytes (+%d objects)", base.alloc, after.alloc, int64(after.objects)-int64(base.objects)) //nolint:gosec
 	}
@@ -379,7 +384,7 @@ func knownFor(p Pair) string {
 		return "C12-rtpfb-history-without-feedback"
 	case p.Member == "rfc8888" && p.Workload == "stream-churn":
 		return "C12-rfc8888-state-survives-unbind"
-	case (p.Member == "cc-noop-pacer" || p.Member == "cc-leaky-bucket") && p.Workload == "stream-churn":
+	case strings.HasPrefix(p.Member, "cc-") && p.Workload == "stream-churn":
 		return "C12-cc-pacer-streams-kept-until-close"
 	case p.Member == "stats" && p.Workload == "stream-churn":
 		return "C12-stats-recorders-kept-until-close"
